@@ -36,7 +36,7 @@ Fixpoint resolve_t (v : value) {struct v} : qtree value :=
                end) l ;;
       ret (VList l')
   | VDict d =>
-      let generic :=
+      let generic := fun _ : unit =>
         d' <~ (fix go (d : list (str * value)) : qtree (list (str * value)) :=
                  match d with
                  | [] => ret []
@@ -133,8 +133,8 @@ Fixpoint resolve_t (v : value) {struct v} : qtree value :=
             | VList _ => lift (Err EValue)
             | _ => lift (Err EUndefined)
             end
-          else generic
-      | _ => generic
+          else generic tt
+      | _ => generic tt
       end
   | VNull => ret VNull
   | VBool b => ret (VStr (bool_text b))
